@@ -114,7 +114,7 @@ def dump(path):
     conn = _real_connect(path)
     try:
         return sorted(conn.execute("SELECT hostname, port, fingerprint, first_seen FROM known_hosts").fetchall())
-    except sqlite3.OperationalError as e:
+    except sqlite3.DatabaseError as e:  # (OperationalError, or "database disk image is malformed")
         return [("<<unreadable>>", str(e))]
     finally:
         conn.close()
@@ -123,7 +123,7 @@ def dump(path):
 def normalise(rows, before):
     """first_seen of rows that did not exist before is not compared."""
     old = {(r[0], r[1]) for r in before}
-    return [r if (r[0], r[1]) in old else (r[0], r[1], r[2], "*") for r in rows]
+    return [r if (len(r) < 4 or (r[0], r[1]) in old) else (r[0], r[1], r[2], "*") for r in rows]
 
 
 # --------------------------------------------------------------------------- operations
@@ -761,8 +761,26 @@ def run_strace(ctx, tmp):
         os.unlink(dbpath)
     seed_store(dbpath, 3)
     before = dump(dbpath)
+    # a store and an import big enough that the commit rewrites dozens of pages: a kill between two of those page
+    # writes is only harmless if the journal really is on disk
+    big_db = os.path.join(tmp, "st-seed-big.db")
+    if os.path.exists(big_db):
+        os.unlink(big_db)
+    seed_store(big_db, 0)
+    conn = _real_connect(big_db)
+    nbig = 700
+    conn.executemany("INSERT INTO known_hosts (hostname, port, fingerprint, first_seen, last_seen) VALUES (?, ?, ?, ?, ?)",
+                     [(f"host{i:04d}.big.example", 1965, fp(0), "2020-01-01T00:00:00+00:00", "2020-06-01T00:00:00+00:00") for i in range(nbig)])
+    conn.commit()
+    conn.close()
+    f_big = os.path.join(tmp, "st-big.toml")
+    write_import(f_big, [good_entry(f"host{i:04d}.big.example", 1965, 1) for i in range(nbig)])
+    ops.append(("import-merge-big", {"op": "import", "file": f_big, "merge": True, "update": True}))
+    ops.append(("import-replace-big", {"op": "import", "file": f_big, "merge": False, "update": True}))
+    small_db, small_before = dbpath, before
     k = 0
     for name, op in ops:
+        dbpath, before = (big_db, dump(big_db)) if name.endswith("-big") else (small_db, small_before)
         work = os.path.join(tmp, "st-work.db")
 
         def fresh():
@@ -797,13 +815,16 @@ def run_strace(ctx, tmp):
                         continue
                     if ctx.quick() and action not in ("signal=KILL", "error=EIO"):
                         continue
+                    if ctx.quick() and name.endswith("-big") and (sc != "pwrite64" or action != "signal=KILL"):
+                        continue  # (quick tier: the big imports only get the kills between page writes)
                     fresh()
                     r = run_child(["-e", f"trace={sc}", "-e", f"inject={sc}:{action}:when={n}", "-o", os.devnull])
                     got = normalise(dump(work), before)
                     ctx.count("monitor", "syscall_injections")
                     kind = "crash" if action.startswith("signal") else "error"
                     wit = {"operation": name, "syscall": sc, "nth": n, "of": counts[sc], "action": action, "child_exit": r.returncode, "child_stderr": r.stderr[-200:],
-                           "before": before, "after_uninterrupted": after, "observed": got}
+                           "before": before[:8], "after_uninterrupted": after[:8], "observed": got[:8], "rows": (len(before), len(after), len(got)),
+                           "rows_as_before": sum(1 for r in got if r in set(before)), "rows_as_after": sum(1 for r in got if r in set(after))}
                     if got == before:
                         oc = "before"
                     elif got == after:
